@@ -7,6 +7,10 @@ import (
 
 // debug helper: VERIF_DUMP=pkg:recv:name prints the CFG of a function
 func init() {
+	register("DEPS", func(c *Check) {
+		pk := c.P.ByPath[goSMTPPkg]
+		fmt.Println("go-smtp syntax files:", len(pk.Syntax), "types:", pk.Types != nil, "info:", pk.TypesInfo != nil)
+	})
 	register("DUMP", func(c *Check) {
 		var rel, recv, name string
 		fmt.Sscanf(os.Getenv("VERIF_DUMP"), "%s %s %s", &rel, &recv, &name)
